@@ -391,6 +391,17 @@ func (c *boundsCtx) addCondFacts(g *dgraph, cond ssa.Value, val bool) {
 	case *ssa.Extract:
 		// comma-ok results
 		if x.Index == 1 && val {
+			if cl, ok := x.Tuple.(*ssa.Call); ok {
+				rf := refOf(cl.Common())
+				if rf.Pkg == "slices" && (rf.Name == "BinarySearchFunc" || rf.Name == "BinarySearch") {
+					// found ⇒ pos < len(s)
+					for _, ref := range *cl.Referrers() {
+						if e0, ok := ref.(*ssa.Extract); ok && e0.Index == 0 {
+							g.addLE(term{c.key(e0), 1}, term{"len(" + c.key(cl.Call.Args[0]) + ")", 0})
+						}
+					}
+				}
+			}
 			switch t := x.Tuple.(type) {
 			case *ssa.TypeAssert:
 				g.nn["assert:"+c.key(t.X)+":"+t.AssertedType.String()] = true
@@ -679,6 +690,14 @@ func (c *boundsCtx) intDefFacts(g *dgraph, v ssa.Value, k string, seen map[ssa.V
 			}
 		}
 	case *ssa.Extract:
+		// slices.BinarySearch*: 0 <= pos <= len(s)
+		if cl, ok := x.Tuple.(*ssa.Call); ok && x.Index == 0 {
+			rf := refOf(cl.Common())
+			if rf.Pkg == "slices" && (rf.Name == "BinarySearchFunc" || rf.Name == "BinarySearch") {
+				g.addLE(term{zeroSym, 0}, term{k, 0})
+				g.addLE(term{k, 0}, term{"len(" + c.key(cl.Call.Args[0]) + ")", 0})
+			}
+		}
 		// index of a range-over-string / range-over-int Next: k >= 0
 		if nx, ok := x.Tuple.(*ssa.Next); ok && x.Index == 1 {
 			g.addLE(term{zeroSym, 0}, term{k, 0})
